@@ -80,6 +80,10 @@ REQUIRED_THEOREMS = ["block_opt_roundtrip", "blocks_tile_body", "rblock_represen
                      "never_wrong_body_block1_composed_partial", "response_path_params_ok",
                      "block2_unsolicited_dropped", "at_most_once_block2_unsolicited", "at_most_once_block2_non",
                      "nack_shows_application_token", "nack_token_of_its_transfer", "application_token_left_alone",
+                     "app_token_only_block2_composed", "raw_token_only_after_release", "handler_token_step", "wire_token_roundtrip",
+                     "never_wrong_body_block2_composed_tokens",
+                     "app_token_only_block1_composed", "raw_token_only_after_release_block1", "handler_token_step_block1",
+                     "never_wrong_body_block1_composed_tokens",
                      "at_most_once_block1_run", "block1_replay_without_block0_never_delivers",
                      "block1_replayed_last_block_never_delivers", "at_most_once_block2_run",
                      "block2_replay_without_block0_never_delivers", "block2_replays_after_completion_dropped",
@@ -104,7 +108,15 @@ RULE = ("Layer A: block option values (all single bytes, random 0-3 byte values,
         "coap_handle_response_get_block with sent == NULL (crcvs: Non-confirmable transfers, every block - the last in particular - duplicated "
         "at once or after completion, stray Block2 responses on a session that waits for nothing, both modes); the real "
         "coap_check_update_token on sessions with 0-4 lg_crcv and 0-3 lg_xmit entries, the abandoned PDU carrying the wire token (any retry "
-        "counter) of the entry at the head / middle / end of either list, an application token or a foreign token (ctok); Layer B: whole transfers "
+        "counter) of the entry at the head / middle / end of either list, an application token or a foreign token (ctok); the real "
+        "coap_handle_response_get_block / coap_block_new_lg_crcv / coap_send / coap_block_delete_lg_crcv with TOKENS (crcvt: responses under the "
+        "application's token, the token libcoap put on its last request or a token never issued, `sent` NULL / the application's request / the "
+        "follow-up request, copies after the lg_crcv completed, timed out or was replaced, tx_token at the 2^44 / 2^64 wraps; the token the "
+        "handler sees, the token of every request sent and the whole lg_crcv list are compared after every item); the client's Block1 path "
+        "with tokens through the whole handle_response() chain (xmit1t: real coap_add_data_large_request + coap_send + "
+        "coap_handle_response_send_block + coap_handle_response_get_block, 2.31s / final answers / errors under the last request's, the "
+        "application's or a foreign token, lg_xmit / lg_crcv timing out in mid-transfer, repeated PUTs, CON and NON, single-message bodies; "
+        "tokens, count, state-token base, lg_crcv link and both list lengths compared after every item); Layer B: whole transfers "
         "(PUT/Block1 with libcoap's or the application's Request-Tag incl. EMPTY, GET/Block2, hand-built Block1 without Size1) "
         "between a real client and server context under drop/duplicate schedules over the first 4-13 datagrams, MTU 64..1500, SZX asked "
         "by either side, CON/NON, single-body/per-block, two concurrent transfers (also to one resource, told apart by Request-Tag only); "
@@ -117,7 +129,7 @@ TRUSTED_BASE = ["Lean 4.33 kernel; axioms allowed: propext, Classical.choice, Qu
                 "coap_free_type wrap: poison fill up to 64 MiB per allocation, live count, one injected coap_malloc_type failure by tag for adlx), harness/block_sim.h, harness/sim_core.h, generators, "
                 "the Python trace oracle (judge_xfer) and string comparison",
                 "M (CoapVerif/Model/Block.lean, BlockCrcv.lean, BlockXmit.lean, BlockRtag.lean, BlockTok.lean, BlockAdl.lean) is a hand transcription; checked "
-                "against the compiled code only on the cases run (ops srcv srcv2 srcv3 crcv crcvs ctok xmit1 xmit2 adlx and the Layer A ops)",
+                "against the compiled code only on the cases run (ops srcv srcv2 srcv3 crcv crcvs crcvt ctok xmit1 xmit1t xmit2 adlx and the Layer A ops)",
                 "Layer B attribution: harness/block_sim.h maps a wire token to its transfer by the Uri-Path / Request-Tag of the client request "
                 "it first appeared in, and reads session->lg_crcv / lg_xmit inside the handlers to tell whether libcoap still holds the transfer"]
 ASSUMPTIONS = ["block numbers < 2^31 at every call of the range functions (coap_get_block_b rejects NUM > 0xFFFFF)",
@@ -831,13 +843,220 @@ def gen_adlx(rng, n):
     return L
 
 
+def gen_crcvt(rng, n):
+    """the client's Block2 receive path WITH TOKENS (real coap_handle_response_get_block / coap_block_new_lg_crcv / coap_send /
+    coap_block_delete_lg_crcv; model crcvStepT, cliSendT, cliExpireT): transfers whose follow-up responses carry the token
+    libcoap substituted on the last request, `sent` NULL / the application's request / the follow-up request itself, copies
+    arriving after the lg_crcv completed, failed, timed out (x<i>) or was replaced by a new GET (n), tokens of transfers the
+    session never ran, tx_token around the 2^44 and 2^64 wraps"""
+    L = []
+    for _ in range(n):
+        szx = rng.randrange(3)
+        c = 1 << (szx + 4)
+        ln = rng.choice([rng.randrange(1, 6 * c), rng.randrange(2, 6) * c, rng.randrange(2, 6) * c + 1])
+        nb = (ln + c - 1) // c
+        single = rng.choice([1, 0])
+        init = rng.choice([1, 1, 0])
+        tx0 = rng.choice([rng.randrange(1000), (1 << 44) - 1 - rng.randrange(3), (1 << 64) - 1 - rng.randrange(3),
+                          rng.randrange(1 << 64), (rng.randrange(1, 1 << 20) << 44) + rng.randrange(5)])
+        etag = rng.choice([0, 0, 5])
+        def it(t, u, k, e=None):
+            m = 1 if (k + 1) * c < ln else 0
+            return "%d.%d.%d.%d.%d.%d.%d" % (t, u, k, m, szx, etag if e is None else e, 42)
+        items = []
+        if rng.random() < 0.15:
+            items.append(it(rng.choice([1, 2]), rng.choice([0, 1, 2]), rng.randrange(nb)))     # before anything was sent
+        u0 = rng.choice([0, 1, 2, 2])
+        for k in range(nb):
+            u = u0 if rng.random() < 0.8 else rng.randrange(3)
+            items.append(it(0 if k == 0 else 1, u, k))
+            r = rng.random()
+            if r < 0.12:
+                items.append(it(0 if k == 0 else 1, rng.randrange(3), k))                     # duplicate
+            elif r < 0.2:
+                items.append("x%d" % rng.choice([0, 0, 1]))                                    # the lg_crcv times out …
+                items.append(it(rng.choice([1, 1, 0]), rng.randrange(3), rng.choice([k, k, 0, min(k + 1, nb - 1)])))  # … late copy
+            elif r < 0.26:
+                items.append("n")                                                              # the application asks again
+                if rng.random() < 0.5:
+                    items.append(it(1, rng.randrange(3), 0))
+            elif r < 0.31:
+                items.append(it(2, rng.randrange(3), rng.choice([0, k])))                      # somebody else's token
+            elif r < 0.35 and k:
+                items.append(it(rng.choice([0, 1]), rng.randrange(3), rng.randrange(k)))       # an old block again
+            elif r < 0.38:
+                items.append(it(1, rng.randrange(3), k, e=rng.choice([6, 0])))                 # ETag change: restart
+        # after the transfer: copies under the last wire token / the application's token, matched or not
+        for _ in range(rng.choice([0, 1, 1, 2, 3])):
+            items.append(it(rng.choice([0, 1, 1]), rng.randrange(3), rng.choice([nb - 1, 0, rng.randrange(nb)])))
+        if rng.random() < 0.2:
+            items += ["n"] + [it(0 if k == 0 else 1, u0, k) for k in range(nb)]
+        L.append("crcvt %d %d %d %s %d %d %s" % (single, ln, rng.randrange(256), rng.choice([str(ln), "-"]), init, tx0, ",".join(items[:40])))
+    return L
+
+
+def spec_crcvt(w, i):
+    """I-vs-property (from the harness line alone): "handlers only ever see the application's own token, never one libcoap
+    substituted on the wire" - a response whose token belongs to an lg_crcv the session holds (STATE_TOKEN_BASE or application
+    token) must reach the handler under that lg_crcv's application token; a token other than the application's may only be
+    shown if it belongs to an lg_crcv that was released before (the open finding's class)."""
+    APP = "a1a1a1a1"
+    MASK = (1 << 44) - 1
+    tx0 = int(w[6])
+    def base_of(h):
+        return int.from_bytes(bytes.fromhex(h)[:8], "big") & MASK if h != "-" else 0
+    def parse_list(sx):
+        if sx == "-":
+            return []
+        out = []
+        for e in sx.split("|"):
+            f = e.split(".")
+            out.append((f[0], int(f[1])))
+        return out
+    cur = [(APP, (tx0 + 1) & MASK)] if int(w[5]) else []
+    released = set()
+    last = APP
+    foreign = False
+    outs = i.replace(" UNINIT", "").split(",")
+    for item, o in zip(w[7].split(","), outs):
+        if "/" not in o:
+            return None
+        head, lst = o.rsplit("/", 1)
+        after = parse_list(lst)
+        if not (item == "n" or item.startswith("x")):
+            f = item.split(".")
+            t = int(f[0])
+            if t == 2:
+                foreign = True
+            tok = APP if t == 0 else last if t == 1 else tok_hex(((tx0 + 1000) & MASK) + (3 << 44))
+            mt = re.search(r"T([0-9a-f]+|-)$", head)
+            shown = mt.group(1) if mt else None
+            if shown is not None:
+                hit = next((e for e in cur if e[1] == base_of(tok) or e[0] == tok), None)
+                if hit and shown != hit[0]:
+                    return "a response with token %s belongs to the lg_crcv (application token %s, state token base %d) the session holds, " \
+                           "but the response handler was shown token %s" % (tok, hit[0], hit[1], shown)
+                if shown != APP and not foreign and base_of(shown) not in released:
+                    return "the response handler was shown token %s: not the application's, and no lg_crcv with that state token " \
+                           "base had been released before" % shown
+        for e in cur:
+            if e[1] not in [a[1] for a in after]:
+                released.add(e[1])
+        cur = after
+        for q in re.findall(r"\+q[0-9?.]+t([0-9a-f]+|-)", head):
+            last = q
+    return None
+
+
+def gen_xmit1t(rng, n):
+    """the client's Block1 path WITH TOKENS and the whole handle_response() chain (real coap_add_data_large_request, coap_send,
+    coap_handle_response_send_block, coap_handle_response_get_block, coap_block_delete_lg_xmit / _crcv; model putStep1T /
+    rspStep1T): 2.31s under the token of the request transmitted last / the application's / a foreign one, duplicates, early
+    size renegotiation, the final 2.04 / 4.xx / 5.00, copies after the transfer state was released, lg_xmit or lg_crcv timing out
+    in mid-transfer, the application PUTting again with the same token, single-message bodies with and without lg_crcv
+    (CON without Block1 option), tx_token around the 2^44 / 2^64 wraps"""
+    L = []
+    for _ in range(n):
+        cszx = rng.choice(["-", "-", str(rng.randrange(7)), str(rng.randrange(4))])
+        cs = 6 if cszx == "-" else int(cszx)
+        c = 1 << (cs + 4)
+        ln = rng.choice([rng.randrange(1, 6 * c), rng.randrange(1, 40), rng.randrange(2, 6) * c, rng.randrange(2, 6) * c + 1])
+        mtu = rng.choice([1152, 1152, rng.randrange(64, 400)])
+        non = rng.choice([1, 0])
+        tx0 = rng.choice([rng.randrange(1000), (1 << 44) - 1 - rng.randrange(4), (1 << 64) - 1 - rng.randrange(4), rng.randrange(1 << 64)])
+        nb = (ln + c - 1) // c
+        items = ["p"]
+        sz = cs if rng.random() < 0.7 else rng.randrange(cs + 1)     # the server may ask for smaller blocks
+        k = 0
+        steps = rng.randrange(1, nb + 4)
+        for _ in range(steps):
+            r = rng.random()
+            if r < 0.62:
+                items.append("%d.95.%d.%d" % (rng.choice([1, 1, 1, 1, 0]), k, sz)); k += rng.choice([1, 1, 1, 0, 2])
+            elif r < 0.70:
+                items.append("%d.95.%d.%d" % (rng.choice([1, 0, 2]), max(0, k - 1), sz))        # duplicate 2.31
+            elif r < 0.76:
+                items.append(rng.choice(["x", "y"]))
+            elif r < 0.80:
+                items.append("p")
+                k = 0
+            elif r < 0.86:
+                items.append("2.%d" % rng.choice([68, 95, 141])) if rng.random() < 0.5 else items.append("2.95.%d.%d" % (k, sz))
+            else:
+                items.append("%d.%d" % (rng.choice([1, 1, 0]), rng.choice([68, 68, 141, 160, 136])))
+        # the end of the transfer and what arrives afterwards
+        items.append("%d.%d" % (rng.choice([1, 1, 0]), rng.choice([68, 68, 141])))
+        for _ in range(rng.choice([0, 1, 1, 2])):
+            items.append(rng.choice(["1.68", "0.68", "1.95.%d.%d" % (rng.randrange(nb + 1), sz), "1.141", "x", "y"]))
+        L.append("xmit1t %s %d %d %d %d %d %s" % (cszx, ln, rng.randrange(256), mtu, non, tx0, ",".join(items[:40])))
+    return L
+
+
+def spec_xmit1t(w, i):
+    """I-vs-property (from the harness line alone): a response whose token selects the lg_xmit / lg_crcv the session holds
+    reaches the handler under the application's token; a token other than the application's is only shown if its
+    STATE_TOKEN_BASE belongs to an lg_xmit / lg_crcv released BEFORE this response was dispatched; the release callback of
+    every body runs exactly once."""
+    APP = "a1a1a1a1"
+    MASK = (1 << 44) - 1
+    tx0 = int(w[6])
+    def base_of(h):
+        return int.from_bytes(bytes.fromhex(h)[:8], "big") & MASK if h != "-" else 0
+    m = re.search(r" rel=(\d+)$", i)
+    items = w[7].split(",")
+    body = re.sub(r" rel=\d+$", "", i)
+    outs = body.split(",")
+    if m and len(outs) == len(items) and int(m.group(1)) != items.count("p"):
+        return "%d bodies were handed to libcoap, the release callback ran %s times" % (items.count("p"), m.group(1))
+    live = set()            # bases of the lg_xmit / lg_crcv the session holds
+    released = set()
+    last = APP
+    foreign = False
+    for item, o in zip(items, outs):
+        if "/X" not in o:
+            return None
+        head, st = o.rsplit("/X", 1)
+        mx = re.match(r"(\d+)(?::\d+\.\d+\.-?\d+\.\d+\.(\d+)\.[01])?C(\d+)(?::([0-9a-f]+|-)\.(\d+)\.\d+)?$", st)
+        if not mx:
+            return None
+        if int(mx.group(1)) > 1 or int(mx.group(3)) > 1:
+            return "one application token, yet the session holds %s lg_xmits / %s lg_crcvs" % (mx.group(1), mx.group(3))
+        now = set()
+        if mx.group(2) is not None:
+            now.add(int(mx.group(2)))
+        if mx.group(5) is not None:
+            now.add(int(mx.group(5)))
+        if item not in ("p", "x", "y"):
+            f = item.split(".")
+            t = int(f[0])
+            if t == 2:
+                foreign = True
+            tok = APP if t == 0 else last if t == 1 else tok_hex(((tx0 + 1000) & MASK) + (3 << 44))
+            mt = re.search(r"T([0-9a-f]+|-)$", head)
+            if mt:
+                shown = mt.group(1)
+                if base_of(tok) in live and shown != APP:
+                    return "a response with token %s belongs to the transfer state (state token base %d) the session holds, but the " \
+                           "response handler was shown token %s" % (tok, base_of(tok), shown)
+                if shown != APP and not foreign and base_of(shown) not in released:
+                    return "the response handler was shown token %s: not the application's, and no lg_xmit / lg_crcv with that state " \
+                           "token base had been released before" % shown
+        for b in live - now:
+            released.add(b)
+        live = now
+        mq = re.search(r"t([0-9a-f]+|-)(?:T|$)", head)
+        if mq and (item == "p" or head.startswith("b")):
+            last = mq.group(1) if mq.group(1) != "-" else last
+    return None
+
+
 def generate(ctx, escalate=False):
     n = 3000 if ctx.thorough() else 400
     if escalate:
         n *= 3
     return gen_layer_a(ctx, n) + gen_crcv(ctx.rng, n * 2) + gen_xmit(ctx.rng, n) + gen_rtag(ctx.rng, n) + gen_layer_b(ctx, n * 3) + \
         gen_crcv_hostile(ctx.rng, n * 2) + gen_xmit1_hostile(ctx.rng, n) + gen_srcv_hostile(ctx.rng, n * 2) + \
-        gen_crcvs(ctx.rng, n) + gen_ctok(ctx.rng, n) + gen_layer_b_rules(ctx, n) + gen_adlx(ctx.rng, n * 2)
+        gen_crcvs(ctx.rng, n) + gen_ctok(ctx.rng, n) + gen_layer_b_rules(ctx, n) + gen_adlx(ctx.rng, n * 2) + gen_crcvt(ctx.rng, n * 2) + gen_xmit1t(ctx.rng, n * 2)
 
 
 # --------------------------------------------------------------------------
@@ -1049,6 +1268,14 @@ def spec_layer_a(ctx, c):
                     return "the handler was given %s, the sender's body is %d bytes hash %s" % (o, ln, fnv(body))
                 if int(f[1]) != ln and not any(x.split(".")[0] == "0" and x.split(".")[1] == "0" for x in w[5].split(",")):
                     return "the handler was given %s bytes of a %d-byte body" % (f[1], ln)
+    elif op == "xmit1t":
+        why = spec_xmit1t(w, i)
+        if why:
+            return why
+    elif op == "crcvt":
+        why = spec_crcvt(w, i)
+        if why:
+            return why
     elif op == "ctok":
         # the handler must be shown the application's token of the transfer the abandoned PDU's token was derived from
         ents = lambda x: [] if x == "-" else [(e.split("/")[0], int(e.split("/")[1])) for e in x.split(",")]
@@ -1487,7 +1714,7 @@ def classify(c):
 def search(ctx, tie_breaks, proof):
     return gen_layer_a(ctx, 1500) + gen_crcv(ctx.rng, 3000) + gen_xmit(ctx.rng, 1500) + gen_rtag(ctx.rng, 1500) + \
         gen_crcv_hostile(ctx.rng, 3000) + gen_xmit1_hostile(ctx.rng, 1500) + gen_srcv_hostile(ctx.rng, 3000) + \
-        gen_crcvs(ctx.rng, 1500) + gen_ctok(ctx.rng, 1500) + gen_layer_b_rules(ctx, 600) + gen_adlx(ctx.rng, 1500)
+        gen_crcvs(ctx.rng, 1500) + gen_ctok(ctx.rng, 1500) + gen_layer_b_rules(ctx, 600) + gen_adlx(ctx.rng, 1500) + gen_crcvt(ctx.rng, 1500) + gen_xmit1t(ctx.rng, 1500)
 
 
 def known(ctx, c):
